@@ -85,6 +85,19 @@ def layout_case(c):
             except Exception as ex:  # noqa: BLE001
                 pure[f"{name}/{str(dt)[6:]}"] = "raised " + type(ex).__name__
             x = keep.clone()
+    # non-contiguous code matrices (a transposed view of the same values) through the tensor subclass: unpack must return t
+    lay = {}
+    tv = t.t().contiguous().t()
+    for name, kw in (("V1", {"packing": packed.AWQPacking.V1, "reorder": False}), ("V1r", {"packing": packed.AWQPacking.V1, "reorder": True}), ("V2", {"packing": packed.AWQPacking.V2})):
+        if name == "V2" and not (N % 4 == 0 and K % 64 == 0):
+            continue
+        try:
+            pt_ = packed.AWQPackedTensor.pack(tv, **kw)
+            un = pt_.unpack()
+            lay[name] = "ok" if list(un.shape) == [N, K] and bool(torch.equal(un.contiguous(), t)) else "unpack(pack(t)) differs from t"
+        except Exception as ex:  # noqa: BLE001
+            lay[name] = "raised " + type(ex).__name__
+    r["transposed_view"] = lay
     r["pure"] = pure
     p1 = packed.pack(t, reorder=False)
     p1r = packed.pack(t, reorder=True)
@@ -138,6 +151,16 @@ def repr_case(c):
     r["deq_worst"] = {"err": float(err.max()), "mag": float(mag.max())}
     r["awq_dtype"] = str(awq.dtype)
     r["awq_data_is_v2"] = bool(torch.equal(awq._data._data, packed.pack_v2(ungroup(codes, axis=0, orig_shape=std.shape))))
+    # rebuilding the optimised tensor from its flattened form (what torch.compile and subclass-aware (de)serialization do):
+    # same class, same dequantized values
+    try:
+        names, meta = awq.__tensor_flatten__()
+        inner = {n_: getattr(awq, n_) for n_ in names}
+        rebuilt = type(awq).__tensor_unflatten__(inner, meta, None, None)
+        d_re = rebuilt.dequantize().double()
+        r["unflatten"] = {"cls": type(rebuilt).__name__, "deq_equal": list(d_re.shape) == list(d_awq.shape) and bool(torch.equal(d_re, d_awq))}
+    except Exception as ex:  # noqa: BLE001
+        r["unflatten"] = {"exn": type(ex).__name__ + ": " + str(ex)[:160]}
     # serialization must go through the standard representation
     try:
         dest = {}
